@@ -4,6 +4,7 @@ import DryocVerif.Proofs.SecretBoxExtra
 import DryocVerif.Proofs.SecretBoxExtra2
 import DryocVerif.Spec.NaCl
 import DryocVerif.Properties.C05
+import DryocVerif.Proofs.GenPoly1305
 /-
 C01 — secretbox / box / sealed box: every open ∘ seal pairing is the identity, all API forms
 produce one wire format, and that wire format is the NaCl construction.
@@ -1658,6 +1659,16 @@ example : ∀ u ∈ C05.smallOrderEncodings, C05.SmallOrder (Spec.X25519.decodeU
   C05.smallOrder_decode
 
 end Sodium
+
+/-- the authenticator of a box is computed by `Poly1305::update` over the whole ciphertext in one call; its one length
+computation (where the whole blocks end), translated from /repo/src/poly1305/poly1305_soft.rs on every run, is
+`m.len() − m.len() mod 16` for EVERY length — no word width is involved, so boxes of 4 GiB and more are authenticated like
+short ones (the run reaches such sizes only in the thorough tier of C07, op `poly1305_huge`) -/
+theorem translated_poly1305_update_split (n : Nat) :
+    Gen.Poly1305.update_full_blocks_end n = n - n % 16 ∧ 16 ∣ Gen.Poly1305.update_full_blocks_end n ∧
+      n - Gen.Poly1305.update_full_blocks_end n < 16 :=
+  ⟨Proofs.GenPoly1305.update_full_blocks_end_eq n, (Proofs.GenPoly1305.update_full_blocks_end_spec n).1,
+   (Proofs.GenPoly1305.update_full_blocks_end_spec n).2.2⟩
 
 end DryocVerif.Properties.C01
 
